@@ -15,6 +15,7 @@ func init() {
 	vhRegister("VH_C17_Gate", func(p []int) { VH_C17_Gate(p[0]) })
 	vhRegister("VH_C17_Real", func(p []int) { VH_C17_Real(p[0], p[1]) })
 	vhRegister("VH_C03_RealOffsets", func(p []int) { VH_C03_RealOffsets() })
+	vhRegister("VH_C03_RealRotate", func(p []int) { VH_C03_RealRotate(p[0]) })
 	vhRegister("VH_C15_Cache", func(p []int) { VH_C15_Cache(p[0]) })
 	vhRegister("VH_C15_Recount", func(p []int) { VH_C15_Recount(p[0]) })
 }
@@ -220,6 +221,86 @@ func VH_C03_RealOffsets() {
 	vhCover("real-offsets")
 }
 
+// VH_C03_RealRotate: REAL events with (crc = 1) or without CRC32 checksums (four arbitrary trailing
+// bytes per event, announced by the format description): a statement, a real ROTATE to another
+// file at an arbitrary 64-bit position, the new file's format description, two more statements.
+// Labels after the rotation name exactly the rotation target (no checksum bytes in the file name)
+// and chain; the kept position is the last end label.
+func VH_C03_RealRotate(crc int) {
+	tail := func(b []byte) []byte {
+		if crc == 1 {
+			return append(b, vhBytes(4)...)
+		}
+		return b
+	}
+	fde := func() []byte {
+		body := []byte{4, 0}
+		ver := make([]byte, 50)
+		copy(ver, "5.7.0")
+		body = append(body, ver...)
+		body = vwU32(body, 0)
+		body = append(body, 19)
+		hs := make([]byte, 40)
+		hs[1], hs[3], hs[14] = 13, 8, 84
+		body = append(body, hs...)
+		body = append(body, byte(crc))
+		body = append(body, 0, 0, 0, 0)
+		return vwEv(15, 0, body)
+	}
+	query := func(sql string, next uint32) []byte {
+		var body []byte
+		body = vwU32(body, 1)
+		body = vwU32(body, 0)
+		body = append(body, 2)
+		body = append(body, 0, 0, 0, 0)
+		body = append(body, 'd', 'b', 0)
+		body = append(body, sql...)
+		return vwEv(2, next, tail(body))
+	}
+	n1, n2, n3 := vhU32(), vhU32(), vhU32()
+	rpos := vhU64()
+	vhAssume(rpos < 1<<62)
+	var rot []byte
+	rot = vwU32(rot, uint32(rpos))
+	rot = vwU32(rot, uint32(rpos>>32))
+	rot = append(rot, "bin.000010"...)
+	evs := []replication.BinlogEvent{
+		replication.NewMysql56BinlogEvent(vwRotate("bin.000009", 4)),
+		replication.NewMysql56BinlogEvent(fde()),
+		replication.NewMysql56BinlogEvent(query("create table a (x int)", n1)),
+		replication.NewMysql56BinlogEvent(vwEv(4, vhU32(), tail(rot))),
+		replication.NewMysql56BinlogEvent(fde()),
+		replication.NewMysql56BinlogEvent(query("create table b (x int)", n2)),
+		replication.NewMysql56BinlogEvent(query("drop table a", n3)),
+	}
+	ch := make(chan replication.BinlogEvent, len(evs))
+	for _, e := range evs {
+		ch <- e
+	}
+	close(ch)
+	s := &Streamer{tableMapper: &vMapper{}}
+	s.SetBinlogPosition(Position{Filename: "bin.000009", Offset: 4})
+	type lab struct {
+		file string
+		off  int64
+	}
+	want := []lab{{"bin.000009", 4}, {"bin.000009", int64(n1)}, {"bin.000010", int64(rpos)}, {"bin.000010", int64(n2)}, {"bin.000010", int64(n3)}}
+	from := []int{0, 2, 3}
+	k := 0
+	s.sendTransaction = func(t *Transaction) error {
+		vhAssert(k < 3, "three transactions")
+		a, b := want[from[k]], want[from[k]+1]
+		vhAssert(t.NowPosition.Filename == a.file && t.NowPosition.Offset == a.off, "start label = previous end label or the rotation target, file name exact")
+		vhAssert(t.NextPosition.Filename == b.file && t.NextPosition.Offset == b.off, "end label = end offset of the commit event in the current file, file name exact")
+		k++
+		return nil
+	}
+	pos, err := s.parseEvents(context.Background(), ch)
+	vhAssert(err == nil && k == 3, "history parses")
+	vhAssert(pos.Filename == "bin.000010" && pos.Offset == int64(n3), "kept position is the last end label")
+	vhCover("real-rotate")
+}
+
 // VH_C17_Real: the REAL event type on an arbitrary buffer of n bytes that fails the validity test
 // (shorter than a header, or length field != buffer length), fed to the real parseEvents as packet
 // number `where` of a dump (0: first, 1: after the fake ROTATE, 2: after the format description):
@@ -300,9 +381,11 @@ func VH_C03_Resume(U int) {
 	vhCover("resume")
 }
 
-// VH_C15_Cache: table ids 10 and 11, re-announcements with changed column types,
+// VH_C15_Cache: table ids 10 and 10 + 2^32, re-announcements with changed column types,
 // inside and across transactions; the mapper names the columns by ordinal.
 func VH_C15_Cache(shape int) {
+	// the second table's id equals the first one's modulo 2^32 (6-byte table ids)
+	const idB = uint64(10) + 1<<32
 	h := &vHist{ghost: &vGhost{}, start: Position{Filename: "f0", Offset: 4}, tables: []string{"ta", "tb"}}
 	g := &vGen{h: h}
 	g.file, g.off = "f0", 4
@@ -347,7 +430,7 @@ func VH_C15_Cache(shape int) {
 	}
 	announce(10, "ta", replication.TypeVarchar)
 	if shape >= 1 {
-		announce(11, "tb", replication.TypeTiny)
+		announce(idB, "tb", replication.TypeTiny)
 	}
 	nops := 2 + shape
 	first := len(h.exp)
@@ -357,7 +440,7 @@ func VH_C15_Cache(shape int) {
 			write(10)
 		case 1:
 			if shape >= 1 {
-				write(11)
+				write(idB)
 			} else {
 				write(10)
 			}
